@@ -2,6 +2,7 @@
    Property theorems only; each is closed by [exact] of a lemma proved in proofs/. *)
 From Coq Require Import List Bool NArith.
 Require Import RV.model.Paths RV.proofs.PathsProofs RV.proofs.MountProofs.
+Require Import RV.model.PhysLinks RV.proofs.PhysLinksProofs.
 Import ListNotations.
 
 Lemma byte_slash_dot : @slash ByteAlphabet <> @dot ByteAlphabet.
@@ -77,6 +78,63 @@ Theorem C13_history_initial : forall (keys : list bstr) (cwd0 : bstr) between (p
   forallb is_use between = true ->
   exists earlier, vrun keys cwd0 (between ++ [VUse p]) = earlier ++ [find_mount cwd0 keys p].
 Proof. exact history_initial. Qed.
+
+(* Symbolic links made THROUGH the rooted filesystem.  localfs.Symlink(old, new) stores the RESOLVED first argument
+   (an absolute host path under the base, without ".."), so for every table of such links (any number of them, at
+   any locations, chained in any way), every path the filesystem hands to the host leads - by the kernel's own
+   component-by-component resolution, whatever links it passes through and however many - to a place under the
+   base.  (Kernel resolution is the executable model PhysLinks.phys; the fuel is the kernel's bound on links.) *)
+Definition made_by_symlink (base : bstr) (t : target bstr) : Prop :=
+  exists old q, resolve_path base old = Ok q /\ t = Tgt true (comps q).
+
+Lemma normal_plain : forall x : bstr, normal x -> plain bstr (@dotdot ByteAlphabet) x.
+Proof.
+  intros x (_ & _ & Hdd & _) E. subst x. unfold is_dotdot in Hdd.
+  assert (H : str_eqb (@dotdot ByteAlphabet) (@dotdot ByteAlphabet) = true) by (apply str_eqb_eq; reflexivity).
+  rewrite H in Hdd. discriminate.
+Qed.
+
+Theorem C13_links_lead_inside : forall (base : bstr) (L : links bstr) fuel (path q : bstr) p,
+  base_ok base -> is_empty base || str_eqb base [slash] = false ->
+  (forall loc t, In (loc, t) L -> made_by_symlink base t) ->
+  resolve_path base path = Ok q ->
+  leads bstr (@str_eqb ByteAlphabet) (@dotdot ByteAlphabet) fuel L (comps q) = Some p ->
+  under bstr (comps base) p.
+Proof.
+  intros base L fuel path q p Hb Hn HL Hr Hp.
+  assert (Hplain : forall rest, Forall normal rest -> Forall (plain bstr (@dotdot ByteAlphabet)) (comps base ++ rest)).
+  { intros rest Hrest. apply Forall_app. split.
+    - destruct Hb as [_ Hc]. eapply Forall_impl; [|exact Hc]. exact normal_plain.
+    - eapply Forall_impl; [|exact Hrest]. exact normal_plain. }
+  destruct (C13_local_confined base path q Hb Hn Hr) as [rest [Eq Hrest]].
+  refine (leads_confined bstr (@str_eqb ByteAlphabet) (@str_eqb_eq ByteAlphabet) (@dotdot ByteAlphabet) (comps base) L _
+            fuel (@comps ByteAlphabet q) p _ _ Hp).
+  - intros loc t Hin. destruct (HL loc t Hin) as [old [q' [Hq' Et]]]. subst t. simpl.
+    destruct (C13_local_confined base old q' Hb Hn Hq') as [rest' [Eq' Hrest']].
+    split; [reflexivity|]. split; [exists rest'; exact Eq'|]. rewrite Eq'. apply Hplain. exact Hrest'.
+  - rewrite Eq. apply Hplain. exact Hrest.
+  - exists rest. exact Eq.
+Qed.
+
+(* Why the stored text has to be the resolved path.  Base /b; the link /b/d/s holds "/b" (made by Symlink("/", "d/s"));
+   a link /b/L holding the RELATIVE text "d/s/.." - which cleans to "d", inside the base - leads to "/", the parent of
+   the base, and /b/L/x to /x.  With the resolved text "/b/d" it leads to /b/d. *)
+Definition cb : bstr := [98]%N.   Definition cd : bstr := [100]%N.   Definition cs : bstr := [115]%N.
+Definition cL : bstr := [76]%N.   Definition cx : bstr := [120]%N.
+Example C13_relative_link_text_escapes :
+  leads bstr (@str_eqb ByteAlphabet) (@dotdot ByteAlphabet) 8
+        [([cb; cd; cs], Tgt true [cb]); ([cb; cL], Tgt false [cd; cs; @dotdot ByteAlphabet])] [cb; cL; cx] = Some [cx] /\
+  leads bstr (@str_eqb ByteAlphabet) (@dotdot ByteAlphabet) 8
+        [([cb; cd; cs], Tgt true [cb]); ([cb; cL], Tgt true [cb; cd])] [cb; cL; cx] = Some [cb; cd; cx].
+Proof. vm_compute. split; reflexivity. Qed.
+(* the hypotheses of C13_links_lead_inside are met: "/" and "d/s/.." resolve under the base "/b" *)
+Example C13_links_hyp_satisfiable :
+  made_by_symlink [47;98]%N (Tgt true [cb]) /\ made_by_symlink [47;98]%N (Tgt true [cb; cd]).
+Proof.
+  split.
+  - exists [47]%N, [47;98]%N. split; vm_compute; reflexivity.
+  - exists [100;47;115;47;46;46]%N, [47;98;47;100]%N. split; vm_compute; reflexivity.
+Qed.
 
 (* Non-vacuity: the hypotheses are met by concrete layouts, and the witness of the repaired defect
    (mount "/tmp", path "/tmpfoo") is refused by the model of the repaired code. *)
